@@ -62,7 +62,7 @@ def run(ck: Check):
     ck.rule(
         "Gaussian streams with 0-2 mean shifts, constants, ramps (t <= 60 quick / 150 thorough), priors / variances / hazards on a grid incl. extreme hazards (1e-6, .999); at every step the "
         "run-length row is compared with the linear-space Adams-MacKay posterior recomputed non-incrementally (tolerance 1e-8 abs on probabilities), normalisation, the posterior-weighted "
-        "prediction, and drift vs (arg max != t) unless the two largest probabilities are within 1e-9; non-trivial = the most probable run length is shorter than t at some step"
+        "prediction, and drift vs (arg max != t) unless the two largest probabilities are within 1e-9; also pairs of detectors built from ONE configuration object and updated alternately (one reset in mid-stream), each checked against the posterior of its own stream; non-trivial = the most probable run length is shorter than t at some step"
     )
     cases, impl = [], []
     for _ in range(50 if not thorough else 400):
@@ -84,12 +84,55 @@ def run(ck: Check):
         if exc is not None:
             ck.violation(dict(clause="raises"), dict(config=cfg, stream=xs[: len(out) + 1], error=repr(exc)))
             continue
+        ok, short = check_trace(ck, cfg, xs, out)
+        ck.case(dict(config=cfg, n=n, kind=kind, head=xs[:4]), nontrivial=short, key=repr((cfg, xs)))
+        if ok and n <= 30:
+            cases.append((DET, cfg, xs, None))
+            impl.append(out)
+    # two detectors built from ONE configuration object, updated alternately (one of them reset in mid-stream):
+    # each must keep the exact posterior of ITS OWN stream
+    for _ in range(8 if not thorough else 60):
+        cfg = gen_cfg(rng)
+        n = rng.choice([6, 12, 20])
+        sd = math.sqrt(cfg["data_var"])
+        xa = [rng.gauss(0 if i < n // 2 else 3, sd) for i in range(n)]
+        xb = [rng.gauss(5, sd) for i in range(n)]
+        from frouros.detectors.concept_drift import BOCD, BOCDConfig
+        from frouros.detectors.concept_drift.streaming.change_detection.bocd import GaussianUnknownMean
+
+        conf = BOCDConfig(model=GaussianUnknownMean(prior_mean=cfg["prior_mean"], prior_var=cfg["prior_var"], data_var=cfg["data_var"]), hazard=cfg["hazard"], min_num_instances=cfg["min_num_instances"])
+        da, db = BOCD(config=conf), BOCD(config=conf)
+        oa, ob = [], []
+        kreset = rng.choice([None, n // 3])
+        ya = []
+        for i in range(n):
+            if kreset is not None and i == kreset:
+                da.reset()
+                ya = []
+                oa = []
+            da.update(value=xa[i])
+            ya.append(xa[i])
+            oa.append(DET.observe(da))
+            db.update(value=xb[i])
+            ob.append(DET.observe(db))
+        oka, _ = check_trace(ck, cfg, ya, oa, extra=dict(scenario="two detectors sharing one config object, alternating updates", other_stream=xb))
+        okb, _ = check_trace(ck, cfg, xb, ob, extra=dict(scenario="two detectors sharing one config object, alternating updates", other_stream=xa))
+        ck.case(dict(config=cfg, n=n, kind="shared-config-pair", reset_at=kreset), nontrivial=True, key=repr((cfg, xa, xb, kreset)))
+        ck.count("shared_config_pairs")
+    models = run_models("C08", cases, shard=8)
+    corr_compare(ck, "C08", cases, impl, models, rtol=1e-7, atol=1e-9)
+
+
+def check_trace(ck, cfg, xs, out, extra=None):
+    """One implementation trace against the non-incremental reference. Returns (ok, some step had argmax != t)."""
+    extra = extra or {}
+    if True:
         ref = reference(cfg, xs)
         short = False
         ok = True
         for t, (o, (P, pm, pv)) in enumerate(zip(out, ref)):
             row = [math.exp(v) for v in o[3][2:]]
-            detail = dict(config=cfg, stream=xs[: t + 1], step=t)
+            detail = dict(config=cfg, stream=xs[: t + 1], step=t, **extra)
             if abs(sum(row) - 1) > 1e-9:
                 ck.violation(dict(clause="normalisation"), dict(what="run-length row does not sum to one", total=sum(row), **detail))
                 ok = False
@@ -118,12 +161,7 @@ def run(ck: Check):
                 ck.violation(dict(clause="warmup"), dict(what="drift before min_num_instances", **detail))
                 ok = False
                 break
-        ck.case(dict(config=cfg, n=n, kind=kind, head=xs[:4]), nontrivial=short, key=repr((cfg, xs)))
-        if ok and n <= 30:
-            cases.append((DET, cfg, xs, None))
-            impl.append(out)
-    models = run_models("C08", cases, shard=8)
-    corr_compare(ck, "C08", cases, impl, models, rtol=1e-7, atol=1e-9)
+        return ok, short
 
 
 def main(tier, seed):
